@@ -350,6 +350,20 @@ fn step_merge_all(out: &mut Vec<Pending>, src: &str, ds: &PartialDSet, detail: b
     }
 }
 
+
+/// are the eight chambers a local move re-glues pairwise distinct?  (the hypothesis of the invariant
+/// theorems squeeze_/fix_local_*_/fix_non_disk_face_preserves_axioms; recorded as a tag of the
+/// pipeline case so that the evidence shows how many moves the theorems cover)
+fn tag_general_position(out: &mut Vec<Pending>, chambers: &[usize]) {
+    let mut v = chambers.to_vec();
+    v.sort();
+    v.dedup();
+    let tag = if v.len() == chambers.len() { " move=general-position" } else { " move=degenerate" };
+    if let Some(p) = out.last_mut() {
+        p.tags.push_str(tag);
+    }
+}
+
 /// argument values of the inner calls of `fix_local_1_vertex`
 fn detail_fix1(out: &mut Vec<Pending>, src: &str, ds: &PartialDSet) {
     let _ = pre(|| {
@@ -361,6 +375,7 @@ fn detail_fix1(out: &mut Vec<Pending>, src: &str, ds: &PartialDSet) {
                 let g = o(ds, 3, e);
                 let pairs = vec![(d, o(ds, 1, e)), (e, o(ds, 1, d)), (f, o(ds, 1, g)), (g, o(ds, 1, f))];
                 case_reglue(out, src, ds, pairs.clone(), 1);
+                tag_general_position(out, &[d, o(ds, 1, e), e, o(ds, 1, d), f, o(ds, 1, g), g, o(ds, 1, f)]);
                 if let Some(tmp) = hk::reglue(ds, pairs, 1) {
                     let orb = tmp.orbit([0, 1, 3], c);
                     case_collapse(out, src, &tmp, orb, 3);
@@ -392,6 +407,10 @@ fn detail_fix2(out: &mut Vec<Pending>, src: &str, ds0: &PartialDSet) {
                 }
                 let (a, b) = (o(&ds, 1, o(&ds, 0, d)), o(&ds, 1, o(&ds, 0, e)));
                 case_squeeze(&mut local, src, &ds, a, b);
+                tag_general_position(
+                    &mut local,
+                    &[o(&ds, 0, b), a, o(&ds, 0, a), b, o(&ds, 2, o(&ds, 0, b)), o(&ds, 2, a), o(&ds, 2, o(&ds, 0, a)), o(&ds, 2, b)],
+                );
                 ds = hk::squeeze_tile_3d(&ds, a, b);
                 let orb = ds.orbit([0, 1, 3], d);
                 case_collapse(&mut local, src, &ds, orb, 3);
@@ -413,7 +432,14 @@ fn detail_fnd(out: &mut Vec<Pending>, src: &str, ds: &PartialDSet, res: &Partial
             pairs.push((d, e));
         }
     }
+    let flat: Vec<usize> = pairs.iter().flat_map(|&(a, b)| [a, b]).collect();
+    let full = pairs.len() == 4;
     case_reglue(out, src, ds, pairs, 1);
+    if full {
+        tag_general_position(out, &flat);
+    } else if let Some(p) = out.last_mut() {
+        p.tags.push_str(" move=degenerate");
+    }
 }
 
 /// seeded direct calls on a complete D-set
